@@ -208,6 +208,10 @@ func runTraps(p *core.Prog, r *core.Report, reach map[*ssa.Function]bool, parser
 				u := core.ClassifyErr(info, body, c)
 				if u.Kind == "if-return" || u.Kind == "returned" {
 					r.Ok("REQ-ERR", key, p.Pos(c.Pos()), "a failed Request returns an error before the buffer is used")
+				} else if condOnNil(t.nn.par, c) {
+					// `for state.Request(n) == nil { ... }` / `if state.Request(n) == nil { ... }`: the code that
+					// relies on the bytes runs under the success test; what runs after a failure is subject to IDX
+					r.Ok("REQ-ERR", key, p.Pos(c.Pos()), "the result of Request is the condition the dependent code runs under")
 				} else if u.Kind == "if-other" && u.If != nil && leaves(u.If.Body) {
 					// the function has no error to return (a predicate): the failure branch leaves it, so the
 					// code behind the Request runs only when the bytes are there; what the branch itself
@@ -782,6 +786,35 @@ func leaves(b *ast.BlockStmt) bool {
 			if id, ok := c.Fun.(*ast.Ident); ok && id.Name == "panic" {
 				return true
 			}
+		}
+	}
+	return false
+}
+
+// condOnNil: the call is compared with nil and that comparison is (a conjunct of) the condition of a
+// for or if statement.
+func condOnNil(par map[ast.Node]ast.Node, c *ast.CallExpr) bool {
+	be, ok := par[c].(*ast.BinaryExpr)
+	if !ok || (be.Op != token.EQL && be.Op != token.NEQ) {
+		return false
+	}
+	other := be.Y
+	if ast.Unparen(be.Y) == ast.Expr(c) {
+		other = be.X
+	}
+	if id, ok := ast.Unparen(other).(*ast.Ident); !ok || id.Name != "nil" {
+		return false
+	}
+	for n := par[be]; n != nil; n = par[n] {
+		switch x := n.(type) {
+		case *ast.ForStmt:
+			return x.Cond != nil && x.Cond.Pos() <= be.Pos() && be.End() <= x.Cond.End()
+		case *ast.IfStmt:
+			return x.Cond.Pos() <= be.Pos() && be.End() <= x.Cond.End()
+		case *ast.BinaryExpr, *ast.ParenExpr:
+			continue
+		default:
+			return false
 		}
 	}
 	return false
